@@ -135,11 +135,14 @@ package par
 //@   ensures myHeld == 0
 
 // Do: starts exactly n-1 runner goroutines and becomes a runner itself, on a Work
-// that has no runner yet; every runner starts with its own unit of "running".
+// that has no runner yet; every runner starts with its own unit of "running"; when Do
+// becomes a runner all w.running runners exist (otherwise 'waiting == running' is never
+// reached and nobody returns).
 //@ func (*Work).Do
 //@   requires w != nil && n >= 1 && myHeld == 0 && myR == 0 && myF == 0 && myDo == w
 //@   requires w.running == 0 && gS[w] == 0 && gK[w] == 0 && gX[w] == 0 && gF[w] == 0 && gSpawned[w] == 0 && w.waiting == 0 && !gHeld[w]
 //@   at call go:(*par.Work).runner#1: ghost gSpawned[w] = gSpawned[w] + 1
 //@   at call (*par.Work).runner#1: ghost gSpawned[w] = gSpawned[w] + 1; myR = 1
+//@   at call (*par.Work).runner#1: requires gSpawned[w] == w.running
 //@   loop 1: invariant w.running == n && n >= 1 && myHeld == 0 && myR == 0 && myF == 0 && myDo == w && 0 <= rangeint && gSpawned[w] == rangeint && rangeint < n - 1
 //@   ensures myHeld == 0
